@@ -132,15 +132,19 @@ def deps_cover(ctx, reg, concrete):
                    if k in G.DEP_ARGS]
             Q.require(ems, '{}: no rule/build emission found'.format(hfq))
             best = set()
+            best_clean = set()
             out_roots = set()
             oo_roots = set()
             for c, k in ems:
                 (oname, opos), deps, oos = G.DEP_ARGS[k]
                 got = set()
+                got_clean = set()
                 for nm, pos in deps:
                     got |= ro.of(G.call_arg(c, nm, pos))
+                    got_clean |= ro.clean(G.call_arg(c, nm, pos))
                 if len(got) >= len(best):
                     best = got
+                    best_clean = got_clean
                 out_roots |= ro.of(G.call_arg(c, oname, opos))
                 for nm, pos in oos:
                     oo_roots |= ro.of(G.call_arg(c, nm, pos))
@@ -149,6 +153,13 @@ def deps_cover(ctx, reg, concrete):
                 ctx.ob(R, '{}|{}|rule.{}'.format(b, hfq, a), a in best,
                        h.node, '{} handler {} does not make the step depend '
                        'on rule.{} ({})'.format(b, h.qualname, a, why))
+                if a in best:
+                    ctx.ob(R, '{}|{}|rule.{}|unconditional'.format(
+                        b, hfq, a), a in best_clean, h.node,
+                        '{} handler {} adds rule.{} to the dependencies '
+                        'only under a condition that is not a presence test '
+                        'of rule.{} itself ({})'.format(
+                            b, h.qualname, a, a, why))
             ctx.ob(R2, '{}|{}'.format(b, hfq), 'output' in out_roots, h.node,
                    'the emitted target/output does not derive from '
                    'rule.output')
